@@ -615,7 +615,7 @@ def rule_R3l(res, prog):
     res.floor("C02.R3l", 1)
 
 
-def rule_R7(res, prog):
+def rule_R7(res, prog, prop=PROP, rid="C02.R7"):
     """What is delivered is exactly the authenticated content: in the record decoders a byte count accumulated in a loop
     over record bytes (TLS 1.3 inner-plaintext padding scan) and then used outside the loop to cut the plaintext cannot
     wrap - the counter's type holds every record length (>= 16 bits).  A narrower counter makes the receiver deliver
@@ -623,7 +623,6 @@ def rule_R7(res, prog):
     from sa import cfgutil as cu
     from sa.pp import pp
     from sa.ir import walk
-    rid = "C02.R7"
     res.rule(rid, "a length counted in a loop over record bytes and used to cut the plaintext has a type that holds any record length")
     NARROW = {"unsigned char", "char", "signed char", "uint8_t", "uint8", "int8_t", "_Bool", "bool", "psBool_t"}
     n = 0
@@ -702,13 +701,13 @@ def rule_R7(res, prog):
             f_ = None
             if ok and const_bound is not None and 0 < const_bound < 16384:
                 ok = False
-                f_ = Finding(PROP, rid, fn.name, "scan over record bytes capped at %d" % const_bound,
+                f_ = Finding(prop, rid, fn.name, "scan over record bytes capped at %d" % const_bound,
                              "%s:%s %s(): the loop that counts %s over record bytes also stops when the count reaches %d, less than the "
                              "largest plaintext (2^14): for a longer run the scan ends inside it, the byte taken for the content type / the "
                              "length cut from the plaintext are wrong and authentic data is dropped or mis-delivered without an alert" % (
                                  fn.relfile, ln, fn.name, v["n"], const_bound), file=fn.relfile, line=ln)
             elif not ok:
-                f_ = Finding(PROP, rid, fn.name, "%s counts record bytes in a %s" % (v["n"], v.get("t")),
+                f_ = Finding(prop, rid, fn.name, "%s counts record bytes in a %s" % (v["n"], v.get("t")),
                              "%s:%s %s(): %s (type %s) is incremented once per record byte in the loop at line %s and then used in "
                              "`%s` (line %s): the count wraps at 256, so a record padded with 256 or more bytes is delivered with "
                              "padding and content-type bytes appended to the content" % (
